@@ -565,6 +565,9 @@ type Peer struct {
 	AckMode int
 	Pending []packet.Generic
 
+	// Stalled: the peer stops reading (the simulator delivers nothing to it)
+	Stalled bool
+
 	// faults on the peer->broker direction
 	DropSendN  int // the n-th packet the peer writes is lost and the link dies
 	CutAfterN  int // the link dies right after the n-th packet was delivered
@@ -797,7 +800,7 @@ func (w *World) progress(releaseAcks bool) bool {
 			p.Link.A2B.DeliverFIN()
 			did = true
 		}
-		if n := p.Link.B2A.InFlight(); n > 0 && !p.Link.B2A.Broken() {
+		if n := p.Link.B2A.InFlight(); n > 0 && !p.Link.B2A.Broken() && !p.Stalled {
 			w.deliverToPeer(p, w.chunk(n))
 			did = true
 		} else if p.FC.cutAtDeliv >= 0 && p.Link.B2A.Delivered >= p.FC.cutAtDeliv {
@@ -880,7 +883,7 @@ func (w *World) Nudge(n int) {
 			if k := p.Link.A2B.InFlight(); k > 0 && !p.Link.A2B.Broken() && w.Sched.Chance(2, 3) {
 				w.deliverToBroker(p, w.chunk(k))
 			}
-			if k := p.Link.B2A.InFlight(); k > 0 && !p.Link.B2A.Broken() && w.Sched.Chance(2, 3) {
+			if k := p.Link.B2A.InFlight(); k > 0 && !p.Link.B2A.Broken() && !p.Stalled && w.Sched.Chance(2, 3) {
 				w.deliverToPeer(p, w.chunk(k))
 			}
 		}
